@@ -442,6 +442,14 @@ func evalC16(c *Ctx, cs *Case) {
 					judge(vlabel, vres, vlib.Err == nil && vlib.Panic == nil, nil, false, nil, map[string]any{"lib_err": errStr(vlib.Err)})
 				}
 				if withTarget {
+					// the file system root as target ("/" and "//"), from inside the directory that holds the
+					// tree: the library looks in "/", so must the CLI (read-only: verify)
+					for _, slash := range []string{"/", "//"} {
+						rlib := verifyCall(verifyRoutes[0], string(doc), nil, fsOpts(slash, nil, false, false, false, false))
+						rres := runCLI(c, jc.Target, doc, "", "verify", "--target-dir", slash)
+						c.Count("verify_against_the_filesystem_root", 1)
+						judge("verify --target-dir "+slash, rres, rlib.Err == nil && rlib.Panic == nil, nil, false, nil, map[string]any{"lib_err": errStr(rlib.Err)})
+					}
 					// a target directory that does not exist: whatever the library says about it
 					// (nothing to verify for a document without roots, everything missing otherwise)
 					missing := filepath.Join(jc.Root, "no-such-target")
